@@ -12,7 +12,9 @@ import DudModel.Props.C16
 * `commit_idem`: committing the workspace a commit left, with the child artifact it recorded,
   records the same artifact again and adds nothing to the store.
 * `checkout_idem_link`, `checkout_after_commit_noop`: link checkout is repeatable.
-* `copy_checkout_not_repeatable*`: copy checkout is *not* (negative witness).
+* `checkout_idem`, `checkout_idem_copy`: so is every other strategy pair (an up-to-date copy is
+  left alone); `checkout_over_different_file_fails`: other bytes are still refused.
+* `commit_checkout_sequence_partial`: any sequence of commits and checkouts.
 * `commit_after_checkout`: commit of a checked-out workspace records the same artifact.
 -/
 namespace Dud
@@ -105,51 +107,81 @@ theorem checkout_after_commit_noop (ctx : Ctx κ) (g : Good ctx) (t : Node κ) (
   have := checkoutNode_linked g s'' t newChoice nm fuel hp hs hn (HoldsNode.mono hle t _ nm hh) hf
   rwa [digestAs_new] at this
 
-/-! ## (c) negative witness: copy checkout is not repeatable -/
+/-! ## (c) checkout over a workspace that is already there -/
 
-/-- An up-to-date regular copy is "in the way" of a second checkout, with either strategy. -/
-theorem checkout_over_copy_fails (ctx : Ctx κ) (g : Good ctx) (s : Store κ) (x : κ) (nm : Bytes)
-    {o : Obj κ} (ho : s.get (ctx.H x) = some o) (strat : Strat) (fuel : Nat) :
-    checkoutNode ctx strat s (fuel + 1) (some (.file x)) ⟨nm, ctx.H x, false⟩ = .error .exists_ := by
+/-- **Checkout twice, all four strategy pairs.**  In a store holding the tree, checkout with
+`strat2` over what a `strat1` checkout (or commit) left succeeds and returns
+`wsAfter ctx (coStrat strat1 strat2) t`: regular copies are up to date and are left alone by both
+strategies; exact links are kept by a link checkout and replaced by copies by a copy checkout. -/
+theorem checkout_idem (ctx : Ctx κ) (g : Good ctx) (t : Node κ) (nm : Bytes)
+    (hp : t.plain = true) (hs : t.sorted = true) (hn : NamesOK ctx t)
+    (s : Store κ) (ch : Choice) (hh : HoldsNode ctx s ch nm t) (fuel : Nat) (hf : depth t ≤ fuel)
+    (strat1 strat2 : Strat) :
+    ∃ r, checkoutNode ctx strat1 s fuel none ⟨nm, digestAs ctx ch nm t, t.isDir⟩ = .ok r ∧
+      r = wsAfter ctx strat1 t ∧
+      checkoutNode ctx strat2 s fuel (some r) ⟨nm, digestAs ctx ch nm t, t.isDir⟩
+        = .ok (wsAfter ctx (coStrat strat1 strat2) t) ∧
+      deref ctx s (wsAfter ctx (coStrat strat1 strat2) t) = t :=
+  ⟨_, checkoutNode_holds g s strat1 t ch nm fuel hp hs hn hh hf, rfl,
+    checkoutNode_over g s strat1 strat2 t ch nm fuel hp hs hn hh hf, deref_wsAfter hp hh _⟩
+
+theorem coStrat_copy (strat2 : Strat) : coStrat .copy strat2 = .copy := rfl
+theorem coStrat_link (strat2 : Strat) : coStrat .link strat2 = strat2 := rfl
+theorem coStrat_self (strat : Strat) : coStrat strat strat = strat := by cases strat <;> rfl
+
+/-- **C15 (c), positive.**  What a copy checkout produced is left alone by a second checkout with
+either strategy. -/
+theorem checkout_idem_copy (ctx : Ctx κ) (g : Good ctx) (t : Node κ) (nm : Bytes)
+    (hp : t.plain = true) (hs : t.sorted = true) (hn : NamesOK ctx t)
+    (s : Store κ) (ch : Choice) (hh : HoldsNode ctx s ch nm t) (fuel : Nat) (hf : depth t ≤ fuel)
+    (strat2 : Strat) {r : Node κ}
+    (h : checkoutNode ctx .copy s fuel none ⟨nm, digestAs ctx ch nm t, t.isDir⟩ = .ok r) :
+    checkoutNode ctx strat2 s fuel (some r) ⟨nm, digestAs ctx ch nm t, t.isDir⟩ = .ok r := by
+  rw [checkoutNode_holds g s .copy t ch nm fuel hp hs hn hh hf] at h
+  cases h
+  exact checkoutNode_over g s .copy strat2 t ch nm fuel hp hs hn hh hf
+
+/-- Every checkout is repeatable with the same strategy. -/
+theorem checkout_idem_same (ctx : Ctx κ) (g : Good ctx) (t : Node κ) (nm : Bytes)
+    (hp : t.plain = true) (hs : t.sorted = true) (hn : NamesOK ctx t)
+    (s : Store κ) (ch : Choice) (hh : HoldsNode ctx s ch nm t) (fuel : Nat) (hf : depth t ≤ fuel)
+    (strat : Strat) {r : Node κ}
+    (h : checkoutNode ctx strat s fuel none ⟨nm, digestAs ctx ch nm t, t.isDir⟩ = .ok r) :
+    checkoutNode ctx strat s fuel (some r) ⟨nm, digestAs ctx ch nm t, t.isDir⟩ = .ok r := by
+  rw [checkoutNode_holds g s strat t ch nm fuel hp hs hn hh hf] at h
+  cases h
+  have := checkoutNode_over g s strat strat t ch nm fuel hp hs hn hh hf
+  rwa [coStrat_self] at this
+
+/-- **Negative witness: what is still refused.**  A regular file with *other* bytes is in the way
+of a checkout, with either strategy. -/
+theorem checkout_over_different_file_fails (ctx : Ctx κ) (g : Good ctx) (s : Store κ) (x y : κ)
+    (hxy : y ≠ x) (nm : Bytes) {o : Obj κ} (ho : s.get (ctx.H x) = some o) (strat : Strat)
+    (fuel : Nat) :
+    checkoutNode ctx strat s (fuel + 1) (some (.file y)) ⟨nm, ctx.H x, false⟩ = .error .exists_ := by
+  have hne : ctx.H y ≠ ctx.H x := fun h => hxy (g.inj _ _ h)
   cases strat <;>
-    simp [checkoutNode, checkoutFile, quick, hasSum_H g, Store.has_of_get ho, ho]
+    simp [checkoutNode, checkoutFile, upToDateCopy, quick, hasSum_H g, Store.has_of_get ho, ho, hne]
 
-/-- The same one level up: a directory whose first entry is an (up-to-date) regular file. -/
-theorem checkout_over_copy_dir_fails (ctx : Ctx κ) (g : Good ctx) (s : Store κ) (ch : Choice)
-    (nm : Bytes) (x : Name) (y : κ) (r : List (Name × Node κ))
+/-- The same one level up: a directory whose first entry is a regular file with other bytes. -/
+theorem checkout_over_different_file_dir_fails (ctx : Ctx κ) (g : Good ctx) (s : Store κ)
+    (ch : Choice) (nm : Bytes) (x : Name) (y y' : κ) (hy : y' ≠ y) (r r' : List (Name × Node κ))
     (hs : sortedList ((x, .file y) :: r) = true) (hn : NamesOKList ctx ((x, .file y) :: r))
     (hh : HoldsNode ctx s ch nm (.dir ((x, .file y) :: r))) (strat : Strat) (fuel : Nat) :
-    checkoutNode ctx strat s (fuel + 2) (some (.dir ((x, .file y) :: r)))
+    checkoutNode ctx strat s (fuel + 2) (some (.dir ((x, .file y') :: r')))
       ⟨nm, digestAs ctx ch nm (.dir ((x, .file y) :: r)), true⟩ = .error .exists_ := by
   obtain ⟨hhas, hread⟩ := readManifest_holds g hs hn hh
   have hsum := hasSum_digestAs_dir g ch nm ((x, .file y) :: r)
   simp only [HoldsNode, HoldsList] at hh
   obtain ⟨o, ho, _⟩ := hh.2.1
-  have h1 := checkout_over_copy_fails ctx g s y x ho strat fuel
+  have h1 := checkout_over_different_file_fails ctx g s y y' hy x ho strat fuel
   generalize digestAs ctx ch nm (.dir ((x, .file y) :: r)) = d at hhas hread hsum ⊢
-  have hstep : checkoutChildren (checkoutNode ctx strat s (fuel + 1)) ((x, Node.file y) :: r)
+  have hstep : checkoutChildren (checkoutNode ctx strat s (fuel + 1)) ((x, Node.file y') :: r')
       (childrenAs ctx ch ((x, .file y) :: r)) = .error .exists_ := by
     simp only [childrenAs, checkoutChildren, alookup, beq_self_eq_true, if_true, digestAs,
       Node.isDir, h1]
   rw [checkoutNode]
   simp only [if_true, hsum, hhas, hread, hstep, Bool.not_true, Bool.false_eq_true, if_false]
-
-/-- **C15 (c).** Copy checkout, then copy checkout again: the first succeeds, the second fails
-with "exists" although the workspace is exactly what the checkout would produce. -/
-theorem copy_checkout_not_repeatable (ctx : Ctx κ) (g : Good ctx) (nm : Bytes) (x : Name) (y : κ)
-    (r : List (Name × Node κ))
-    (hp : (Node.dir ((x, .file y) :: r)).plain = true)
-    (hs : (Node.dir ((x, .file y) :: r)).sorted = true)
-    (hn : NamesOK ctx (.dir ((x, .file y) :: r)))
-    (s : Store κ) (ch : Choice) (hh : HoldsNode ctx s ch nm (.dir ((x, .file y) :: r)))
-    (fuel : Nat) (hf : depth (Node.dir ((x, .file y) :: r)) ≤ fuel + 2) (strat2 : Strat) :
-    ∃ w, checkoutNode ctx .copy s (fuel + 2) none
-          ⟨nm, digestAs ctx ch nm (.dir ((x, .file y) :: r)), true⟩ = .ok w ∧
-      checkoutNode ctx strat2 s (fuel + 2) (some w)
-          ⟨nm, digestAs ctx ch nm (.dir ((x, .file y) :: r)), true⟩ = .error .exists_ := by
-  refine ⟨_, checkoutNode_holds g s .copy _ ch nm _ hp hs hn hh hf, ?_⟩
-  exact checkout_over_copy_dir_fails ctx g s ch nm x y r (by simpa [Node.sorted] using hs)
-    (namesOK_dir hn) hh strat2 fuel
 
 /-! ## (d) commit after checkout -/
 
@@ -184,6 +216,89 @@ theorem commit_checkout_commit (ctx : Ctx κ) (g : Good ctx) (t : Node κ) (nm :
     hh (depth t) (Nat.le_refl _) strat1 strat2
   exact ⟨_, _, s', h, w, hw, w', s'', h2, hd, hback⟩
 
+/-! ## any sequence of commits and checkouts -/
+
+/-- the four commands (on the workspace entry and the recorded child artifact) -/
+inductive Cmd where
+  | commit (strat : Strat)
+  | checkout (strat : Strat)
+deriving DecidableEq, Repr
+
+/-- one command on (workspace node, recorded child, cache) -/
+def runCmd (ctx : Ctx κ) (fuel : Nat) : Cmd → Node κ × Child × Store κ →
+    Except Err (Node κ × Child × Store κ)
+  | .commit strat, (w, c, s) => commitNode ctx strat w c s
+  | .checkout strat, (w, c, s) =>
+    match checkoutNode ctx strat s fuel (some w) c with
+    | .error e => .error e
+    | .ok r => .ok (r, c, s)
+
+def runCmds (ctx : Ctx κ) (fuel : Nat) : List Cmd → Node κ × Child × Store κ →
+    Except Err (Node κ × Child × Store κ)
+  | [], st => .ok st
+  | cmd :: r, st =>
+    match runCmd ctx fuel cmd st with
+    | .error e => .error e
+    | .ok st' => runCmds ctx fuel r st'
+
+/-- the workspace is all links or all copies, the child is the one first recorded, the store is
+consistent and holds the tree -/
+def SeqInv (ctx : Ctx κ) (t : Node κ) (nm : Bytes) (st : Node κ × Child × Store κ) : Prop :=
+  (∃ σ, st.1 = wsAfter ctx σ t) ∧ st.2.1 = ⟨nm, treeDigest ctx nm t, t.isDir⟩ ∧
+    Consistent ctx st.2.2 ∧ HoldsNode ctx st.2.2 newChoice nm t
+
+theorem runCmd_inv (ctx : Ctx κ) (g : Good ctx) (t : Node κ) (nm : Bytes)
+    (hp : t.plain = true) (hs : t.sorted = true) (hn : NamesOK ctx t) (fuel : Nat)
+    (hf : depth t ≤ fuel) (cmd : Cmd) (st : Node κ × Child × Store κ) (hinv : SeqInv ctx t nm st) :
+    ∃ st', runCmd ctx fuel cmd st = .ok st' ∧ SeqInv ctx t nm st' := by
+  obtain ⟨w, c, s⟩ := st
+  obtain ⟨⟨σ, hw⟩, hc, hcons, hh⟩ := hinv
+  simp only at hw hc hcons hh
+  subst hw hc
+  cases cmd with
+  | commit strat =>
+    obtain ⟨s', h, hc', _, _, hh', _⟩ := commit_idem_holding ctx g t nm hp hs hn s hcons hh σ strat
+    refine ⟨_, h, ⟨?_, rfl, hc', hh'⟩⟩
+    cases σ
+    · exact ⟨.link, rfl⟩
+    · exact ⟨strat, rfl⟩
+  | checkout strat =>
+    have h := checkoutNode_over g s σ strat t newChoice nm fuel hp hs hn hh hf
+    rw [digestAs_new] at h
+    exact ⟨(wsAfter ctx (coStrat σ strat) t, ⟨nm, treeDigest ctx nm t, t.isDir⟩, s),
+      by simp [runCmd, h], ⟨⟨_, rfl⟩, rfl, hcons, hh⟩⟩
+
+theorem runCmds_inv (ctx : Ctx κ) (g : Good ctx) (t : Node κ) (nm : Bytes)
+    (hp : t.plain = true) (hs : t.sorted = true) (hn : NamesOK ctx t) (fuel : Nat)
+    (hf : depth t ≤ fuel) : ∀ (cmds : List Cmd) (st : Node κ × Child × Store κ),
+    SeqInv ctx t nm st → ∃ st', runCmds ctx fuel cmds st = .ok st' ∧ SeqInv ctx t nm st'
+  | [], st, hinv => ⟨st, rfl, hinv⟩
+  | cmd :: r, st, hinv => by
+    obtain ⟨st1, h1, hinv1⟩ := runCmd_inv ctx g t nm hp hs hn fuel hf cmd st hinv
+    obtain ⟨st2, h2, hinv2⟩ := runCmds_inv ctx g t nm hp hs hn fuel hf r st1 hinv1
+    exact ⟨st2, by simp [runCmds, h1, h2], hinv2⟩
+
+/-- **Any sequence of commits and checkouts (either strategy each) after a first commit** of a
+plain sorted tree succeeds, keeps the recorded child artifact and the logical content of the
+workspace; the workspace is always all-links or all-copies.  (Checkouts here are over the existing
+workspace; "partial": commands that delete the workspace in between are not modelled.) -/
+theorem commit_checkout_sequence_partial (ctx : Ctx κ) (g : Good ctx) (t : Node κ) (nm : Bytes)
+    (hp : t.plain = true) (hs : t.sorted = true) (hn : NamesOK ctx t)
+    (s : Store κ) (hc : Consistent ctx s) (strat : Strat) (cmds : List Cmd) (fuel : Nat)
+    (hf : depth t ≤ fuel) :
+    ∃ t' c' s', commitNode ctx strat t ⟨nm, "", t.isDir⟩ s = .ok (t', c', s') ∧
+      ∃ w s'', runCmds ctx fuel cmds (t', c', s') = .ok (w, c', s'') ∧
+        deref ctx s'' w = t ∧ (∃ σ, w = wsAfter ctx σ t) ∧ Consistent ctx s'' ∧
+        c'.sum = treeDigest ctx nm t := by
+  obtain ⟨s', h, hc', _, hh, _⟩ := recommitNode_post g t hp hn ⟨nm, "", t.isDir⟩ s strat rfl
+    (compatNode_empty ctx s t) hc
+  obtain ⟨⟨w, c2, s''⟩, hrun, ⟨σ, hw⟩, hc2, hcons, hh''⟩ :=
+    runCmds_inv ctx g t nm hp hs hn fuel hf cmds
+      (wsAfter ctx strat t, ⟨nm, treeDigest ctx nm t, t.isDir⟩, s') ⟨⟨strat, rfl⟩, rfl, hc', hh⟩
+  simp only at hw hc2 hcons hh''
+  subst hw hc2
+  exact ⟨_, _, s', h, _, s'', hrun, deref_wsAfter hp hh'' σ, ⟨σ, rfl⟩, hcons, rfl⟩
+
 /-! ## Non-vacuity over `Dud.Example.ctx` -/
 
 namespace Example
@@ -197,17 +312,38 @@ example (strat strat2 : Strat) :
     commit_idem ctx good tree [116] tree_plain tree_sorted tree_names [] empty_consistent strat strat2
   exact ⟨t', c', s', h, t'', s'', h2, hd, hback⟩
 
-/-- (c) on the example tree: the second copy checkout fails -/
-example (strat strat2 : Strat) :
+/-- (c) on the example tree: every second checkout succeeds and keeps the logical content -/
+example (strat strat1 strat2 : Strat) :
     ∃ t' c' s', commitNode ctx strat tree ⟨[116], "", true⟩ [] = .ok (t', c', s') ∧
-      ∃ w, checkoutNode ctx .copy s' 3 none c' = .ok w ∧
-        checkoutNode ctx strat2 s' 3 (some w) c' = .error .exists_ := by
+      ∃ w w', checkoutNode ctx strat1 s' 3 none c' = .ok w ∧
+        checkoutNode ctx strat2 s' 3 (some w) c' = .ok w' ∧ deref ctx s' w' = tree := by
   obtain ⟨s', h, _, _, hh, _⟩ := recommitNode_post good tree tree_plain tree_names
     ⟨[116], "", true⟩ [] strat rfl (compatNode_empty ctx [] _) empty_consistent
-  obtain ⟨w, hw, hw2⟩ := copy_checkout_not_repeatable ctx good [116] [97] (.raw "alpha") _
-    tree_plain tree_sorted tree_names s' newChoice hh 1 (Nat.le_of_eq tree_depth) strat2
+  obtain ⟨w, hw, _, hw2, hd⟩ := checkout_idem ctx good tree [116] tree_plain tree_sorted tree_names
+    s' newChoice hh 3 (Nat.le_of_eq tree_depth) strat1 strat2
   rw [digestAs_new] at hw hw2
-  exact ⟨_, _, s', h, w, hw, hw2⟩
+  exact ⟨_, _, s', h, w, _, hw, hw2, hd⟩
+
+/-- the example tree with other bytes in `a` -/
+def treeOther : Node K :=
+  .dir [([97], .file (.raw "something else")),
+        ([98], .dir [([99], .file (.raw "gamma")), ([100], .dir [])]),
+        ([101], .file (.raw "alpha"))]
+
+/-- negative witness on the example tree: a file with other bytes is in the way -/
+example (strat strat2 : Strat) :
+    ∃ t' c' s', commitNode ctx strat tree ⟨[116], "", true⟩ [] = .ok (t', c', s') ∧
+      checkoutNode ctx strat2 s' 3 (some treeOther) c' = .error .exists_ := by
+  obtain ⟨s', h, _, _, hh, _⟩ := recommitNode_post good tree tree_plain tree_names
+    ⟨[116], "", true⟩ [] strat rfl (compatNode_empty ctx [] _) empty_consistent
+  have := checkout_over_different_file_dir_fails ctx good s' newChoice [116] [97] (.raw "alpha")
+    (.raw "something else") (by simp)
+    [([98], .dir [([99], .file (.raw "gamma")), ([100], .dir [])]), ([101], .file (.raw "alpha"))]
+    [([98], .dir [([99], .file (.raw "gamma")), ([100], .dir [])]), ([101], .file (.raw "alpha"))]
+    (by have h := tree_sorted; simp only [tree, Node.sorted] at h; exact h)
+    (namesOK_dir tree_names) hh strat2 1
+  rw [digestAs_new] at this
+  exact ⟨_, _, s', h, this⟩
 
 def show_ (r : Except Err (Node K)) (s : Store K) : String :=
   match r with
@@ -224,10 +360,15 @@ def idem (strat strat2 : Strat) : String :=
     | .ok (t'', c'', s'') =>
       s!"second commit: same child {c'' == c'}, workspace unchanged {nodeBEq t'' t'}, " ++
       s!"logical {nodeBEq (deref ctx s'' t'') tree}; " ++
-      (match checkoutNode ctx strat2 s'' 3 none c' with
+      (match checkoutNode ctx strat s'' 3 none c' with
        | .error e => s!"checkout error {e}"
        | .ok w =>
-         s!"checkout again over the result: {show_ (checkoutNode ctx strat2 s'' 3 (some w) c') s''}; " ++
+         s!"checkout ({repr strat2}) over the ({repr strat}) checkout: " ++
+         s!"{show_ (checkoutNode ctx strat2 s'' 3 (some w) c') s''}, " ++
+         (match checkoutNode ctx strat2 s'' 3 (some w) c' with
+          | .ok w' => s!"workspace unchanged {nodeBEq w' w}; "
+          | .error _ => "; ") ++
+         s!"over other bytes: {show_ (checkoutNode ctx strat2 s'' 3 (some treeOther) c') s''}; " ++
          s!"commit of the checkout records the same child: " ++
          (match commitNode ctx strat w c' s'' with
           | .ok (_, c3, _) => s!"{c3 == c'}"
@@ -238,6 +379,18 @@ def idem (strat strat2 : Strat) : String :=
 #eval idem .copy .link
 #eval idem .copy .copy
 
+/-- executable evidence for the sequence theorem -/
+def seqDemo (cmds : List Cmd) : String :=
+  match commitNode ctx .copy tree ⟨[116], "", true⟩ [] with
+  | .error e => s!"commit error {e}"
+  | .ok (t', c', s') =>
+    match runCmds ctx 3 cmds (t', c', s') with
+    | .error e => s!"error {e}"
+    | .ok (w, c, s) => s!"child kept: {c == c'}; logical content kept: {nodeBEq (deref ctx s w) tree}"
+
+#eval seqDemo [.checkout .link, .commit .link, .checkout .copy, .commit .copy, .checkout .link,
+  .checkout .copy, .commit .link, .commit .copy]
+
 end Example
 
 #print axioms wsAfter2_link
@@ -247,15 +400,25 @@ end Example
 #print axioms commit_idem
 #print axioms checkout_idem_link
 #print axioms checkout_after_commit_noop
-#print axioms checkout_over_copy_fails
-#print axioms checkout_over_copy_dir_fails
-#print axioms copy_checkout_not_repeatable
+#print axioms checkout_idem
+#print axioms coStrat_copy
+#print axioms coStrat_link
+#print axioms coStrat_self
+#print axioms checkout_idem_copy
+#print axioms checkout_idem_same
+#print axioms checkout_over_different_file_fails
+#print axioms checkout_over_different_file_dir_fails
 #print axioms commit_after_checkout
 #print axioms commit_checkout_commit
+#print axioms runCmd_inv
+#print axioms runCmds_inv
+#print axioms commit_checkout_sequence_partial
 #print axioms commitNode_linked
 #print axioms commitEntries_linked
 #print axioms checkoutNode_linked
 #print axioms checkoutChildren_linked
+#print axioms checkoutNode_over
+#print axioms checkoutChildren_over
 #print axioms checkoutNode_holds
 #print axioms checkoutChildren_holds
 #print axioms compatNode_of_holds
